@@ -15,6 +15,8 @@ import ast
 from .core import AnalysisError, loc, norm_src, walk_no_nested, dotted, str_const
 from .symx import Interp, Obj, Path, PList, PDict, Unsupported, explore, Abort
 from .rat import Rat
+from . import herd
+from .trace import tags
 from .c07 import facts_from, nonneg
 
 ANIM = "src/food_system/animal_populations.py"
@@ -118,117 +120,171 @@ def ledger(index, rep):
     rep.require_min(rule, 14)
 
 
+def _ev(events, kind, name=None, pass_no=None):
+    return [e for e in events if e.kind == kind and (name is None or e.name == name) and (pass_no is None or e.pass_no == pass_no)]
+
+
+def _is(value, tag):
+    """the abstract value is exactly the traced result `tag` (e.g. 'ret:calculate_other_deaths', 'elem', 'P0')"""
+    if isinstance(value, Obj):
+        return value.name == tag
+    return isinstance(value, Path) and value.idx is None and ".".join(str(p) for p in value.parts) == tag
+
+
+class Over:
+    """one obligation over all leaves of a trace: holds iff it holds on every leaf; the first failing leaf is reported"""
+
+    def __init__(self, rep, rule, where_loc):
+        self.rep, self.rule, self.loc = rep, rule, where_loc
+        self.state = {}
+
+    def leaf(self, construct, ok, what, dec, detail=None):
+        st = self.state.setdefault(construct, {"n": 0, "bad": None, "what": what})
+        st["n"] += 1
+        if not ok and st["bad"] is None:
+            st["bad"] = (", ".join(f"{k[:40]}={'T' if v is True else 'F' if v is False else v}" for k, v in dec.items()), detail)
+
+    def done(self):
+        for construct, st in self.state.items():
+            bad = st["bad"]
+            self.rep.check(bad is None, self.rule, f"{construct} (on all {st['n']} paths)",
+                           st["what"] + (f" - e.g. when {bad[0]}" if bad else ""), loc=self.loc, detail=bad[1] if bad else None)
+
+
 def record(index, rep):
+    """each ledger term is the value recorded for the month - decided on provenance traces (trace.py), so the names of the locals
+    that carry the values do not matter"""
     rule = "C06.RECORD"
-    cc = index.func(ANIM, "AnimalPopulation.calculate_change_in_population")
-    body = cc.body
-    asg = [(norm_src(s.targets[0]), s) for s in walk_no_nested(cc) if isinstance(s, ast.Assign) and len(s.targets) == 1]
-    # the value appended to slaughter is the value RETURNED by calculate_animal_population
-    cap = [s for n_, s in asg if isinstance(s.value, ast.Call) and dotted(s.value.func) == "AnimalPopulation.calculate_animal_population"]
-    apps = {}
-    for c in walk_no_nested(cc):
-        if isinstance(c, ast.Call) and isinstance(c.func, ast.Attribute) and c.func.attr == "append" and dotted(c.func.value) and \
-                dotted(c.func.value).startswith("animal."):
-            apps[dotted(c.func.value)[7:]] = (norm_src(c.args[0]), c)
-    ok = len(cap) == 1 and "slaughter" in apps and apps["slaughter"][0] == norm_src(cap[0].targets[0]) and apps["slaughter"][1].lineno > cap[0].lineno
-    later = [s for n_, s in asg if cap and n_ == norm_src(cap[0].targets[0]) and s.lineno > cap[0].lineno]
-    rep.check(ok and not later, rule, "slaughter recorded = slaughter applied",
-              "the slaughter recorded for the month is not the value calculate_animal_population actually applied (e.g. the allocated rate "
-              "before the target/zero clamps)", loc=loc(ANIM, cc))
-    if cap:
-        a = cap[0].value.args
-        od = [s for n_, s in asg if isinstance(s.value, ast.Call) and dotted(s.value.func) == "AnimalPopulation.calculate_other_deaths"]
-        ok = len(od) == 1 and norm_src(a[3]).replace(" ", "") == f"{norm_src(od[0].targets[0])}+retiring_animals" and \
-            apps.get("other_death_causes_other_than_starving", ("",))[0] == norm_src(od[0].targets[0]) and norm_src(a[2]) == "new_additive_animals_month"
-        rep.check(ok, rule, "natural deaths recorded = natural deaths applied (+ retirements)",
-                  "the deaths subtracted from the herd are not recorded natural deaths + this month's retirements, or the additive term is not the "
-                  "caller's births + transfers", loc=loc(ANIM, cc))
-    ret = [s for s in walk_no_nested(cc) if isinstance(s, ast.If) and norm_src(s.test) == "animal.animal_function == 'milk'"]
-    ok = len(ret) == 1 and norm_src(ret[0].body[0]) == "retiring_animals = animal.retiring_milk_animals[-1]" and \
-        norm_src(ret[0].orelse[0]) == "retiring_animals = 0"
-    rep.check(ok, rule, "retirements applied = retirements recorded (dairy only)", "retirements subtracted are not the last recorded retirements of a dairy herd",
-              loc=loc(ANIM, cc))
-    # main: births recorded = births applied; order of appends before the final step
-    main = index.func(ANIM, "main")
-    mloop = [s for s in main.body if isinstance(s, ast.For) and norm_src(s.iter) == "range(0, months_to_run)"]
-    if len(mloop) != 1:
-        raise AnalysisError("main: month loop not found")
-    ml = mloop[0]
-    txt = norm_src(ml)
-    rep.check("births[animal.animal_type] = new_births" in txt and "animal.births_animals_month.append(new_births)" in txt and
-              "new_additive_animals_month = births[animal.animal_type] + transfer_populations[animal.animal_species]" in txt and
-              "new_additive_animals_month = births[animal.animal_type]" in txt, rule, "births recorded = births applied",
-              "the births added to a herd are not the births recorded for it this month", loc=loc(ANIM, ml))
-    rep.check("animal.retiring_milk_animals.append(animal.retiring_milk_head_monthly())" in txt, rule, "retirements recorded",
-              "retirements are not recorded from retiring_milk_head_monthly()", loc=loc(ANIM, ml))
-    # the per-animal loop that ends the month: appends come before calculate_final_population, which reads [-1]
-    last = [s for s in ml.body if isinstance(s, ast.For) and "AnimalPopulation.calculate_final_population(animal)" in norm_src(s)]
-    ok = len(last) == 1
-    if ok:
-        seq = [norm_src(s)[:70] for s in last[0].body]
-        def pos(sub):
-            for i, t in enumerate(seq):
-                if sub in t:
-                    return i
-            return None
-        need = ["calculate_healthy_homekill_head(animal", "calculate_starving_homekill_head(animal", "animal.other_death_starving.append(",
-                "AnimalPopulation.calculate_final_population(animal)"]
-        p = [pos(x) for x in need]
-        ok = None not in p and p == sorted(p) and p[-1] == len(seq) - 1
-    rep.check(ok, rule, "final step reads this month's home-kill and starvation deaths",
-              "calculate_final_population does not run last, after this month's home-kill and starvation deaths were recorded", loc=loc(ANIM, ml))
-    if len(last) == 1:
-        exits = [n for st in last[0].body for n in ([st] + list(walk_no_nested(st))) if isinstance(n, (ast.Continue, ast.Break, ast.Return))]
-        rep.check(not exits, rule, "every herd reaches the final step every month (no continue/break in the month-end loop)",
-                  "a continue/break/return in the month-end per-animal loop (line " + ", ".join(str(e.lineno) for e in exits[:3]) + ") lets a herd skip "
-                  "calculate_final_population: that month's recorded deaths and home-kill are never taken off the herd", loc=loc(ANIM, last[0]))
-        cond = [st for st in last[0].body if isinstance(st, (ast.If, ast.Try, ast.While, ast.For, ast.With)) and
-                "calculate_final_population" in norm_src(st)]
-        rep.check(not cond, rule, "the final step is unconditional", "calculate_final_population runs only under a condition", loc=loc(ANIM, last[0]))
-    # the same for the other per-animal passes of the month loop: a skipped herd would keep last month's records
-    for lp in [s for s in ml.body if isinstance(s, ast.For)]:
+    fn, leaves = herd.function_trace(index, "AnimalPopulation.calculate_change_in_population")
+    if len(fn.args.args) != 4:
+        raise AnalysisError("calculate_change_in_population: signature changed")
+    ov = Over(rep, rule, loc(ANIM, fn))
+    for dec, ev, env, it in leaves:
+        pop = _ev(ev, "call", "calculate_animal_population")
+        od = _ev(ev, "call", "calculate_other_deaths")
+        sr = _ev(ev, "call", "calculate_slaughter_rate")
+        app = {e.name: e for e in _ev(ev, "append")}
+        ok = len(pop) == 1 and "P0.slaughter" in app and _is(app["P0.slaughter"].args[0], "ret:calculate_animal_population") and \
+            ev.index(app["P0.slaughter"]) > ev.index(pop[0])
+        ov.leaf("slaughter recorded = slaughter applied", ok, "the slaughter recorded for the month is not the value calculate_animal_population actually applied (e.g. the allocated rate "
+                  "before the target/zero clamps)", dec)
+        if len(pop) == 1 and len(od) == 1:
+            a = pop[0].args
+            milk = herd.dec_true(dec, "animal_function", "milk")
+            deaths = it.to_rat(a[3]) if len(a) > 3 else None
+            natural = it.to_rat(Path(("ret:calculate_other_deaths",)))
+            retire = it.to_rat(Path(("P0", "retiring_milk_animals", "[]"), it.index_of(Rat.const(-1)))) if milk else Rat.const(0)
+            okd = deaths is not None and deaths == natural + retire and "P0.other_death_causes_other_than_starving" in app and \
+                _is(app["P0.other_death_causes_other_than_starving"].args[0], "ret:calculate_other_deaths") and _is(a[2], "P2") and _is(a[0], "P0")
+            ov.leaf("natural deaths recorded = natural deaths applied (+ retirements of a dairy herd)", okd, "the deaths subtracted from the herd are not recorded natural deaths + this month's recorded retirements (dairy herds only), or the "
+                      "additive term is not the caller's births + transfers", dec, detail=str(deaths))
+            oks = len(sr) == 1 and _is(a[4], "ret:calculate_slaughter_rate") if len(a) > 4 else False
+            ov.leaf("slaughter applied starts from the allocated rate", oks, "calculate_animal_population does not receive the rate calculate_slaughter_rate allocated", dec)
+    if len(leaves) < 2:
+        raise AnalysisError("calculate_change_in_population: expected dairy and non-dairy paths")
+    # one generic month of main()
+    ov.done()
+    main, ml, mleaves = herd.month_trace(index)
+    ov = Over(rep, rule, loc(ANIM, ml))
+    for dec, ev, env, it in mleaves:
+        births = _ev(ev, "call", "calculate_additive_births")
+        okb = len(births) == 1 and _is(births[0].args[0], "elem")
+        p = births[0].pass_no if okb else None
+        rec = [e for e in _ev(ev, "append", "births_animals_month") if e.pass_no == p]
+        okb = okb and len(rec) == 1 and _is(rec[0].args[0], "ret:calculate_additive_births#0")
+        ov.leaf("births recorded = births computed for this animal and month", okb, "the births appended to births_animals_month are not result 0 of the births routine for the same animal", dec)
+        step = _ev(ev, "call", "calculate_change_in_population")
+        oks = len(step) == 1 and len(step[0].args) == 4 and _is(step[0].args[0], "elem")
+        if oks:
+            add = it.to_rat(step[0].args[2])
+            b0 = it.to_rat(Path(("ret:calculate_additive_births#0",)))
+            rest = add - b0
+            oks = not any(t.startswith("ret:calculate_additive_births#0") for t in tags(rest))
+        ov.leaf("births applied = births recorded (coefficient 1)", oks, "the additive term handed to the population step does not contain this month's recorded births exactly once", dec)
+        # month-end pass: every record the final step reads is appended before it, the final step is the last call of its pass
+        fin = _ev(ev, "call", "calculate_final_population")
+        okf = len(fin) == 1 and _is(fin[0].args[0], "elem")
+        if okf:
+            pf = fin[0].pass_no
+            pend = [e for e in ev if e.kind == "pass-end" and e.pass_no == pf]
+            stop = ev.index(pend[0]) if pend else len(ev)
+            later = [e for e in ev[ev.index(fin[0]) + 1: stop] if e.kind in ("call", "append", "elem-call")]
+            need = ["other_death_starving", "other_death_total", "total_homekill_this_month"]
+            before = {e.name for e in _ev(ev, "append") if e.pass_no == pf and ev.index(e) < ev.index(fin[0])}
+            hk = [e.name for e in ev if e.pass_no == pf and e.kind == "call" and ev.index(e) < ev.index(fin[0])]
+            okf = not later and all(n_ in before for n_ in need) and "calculate_healthy_homekill_head" in hk and "calculate_starving_homekill_head" in hk
+        ov.leaf("final step reads this month's home-kill and starvation deaths", okf,
+                "calculate_final_population does not run last in its pass, after this month's home-kill and starvation deaths were recorded", dec)
+        endrec = _ev(ev, "call", "appened_current_populations")
+        okp = len(endrec) == 1 and ev.index(endrec[0]) == len(ev) - 1 and fin and ev.index(endrec[0]) > ev.index(fin[0])
+        ov.leaf("population recorded at month end", okp, "the end-of-month head count is not appended to the population list after all animals were updated", dec)
+        setc = _ev(ev, "call", "set_current_populations")
+        first_month = "[0,0]" in str(dec.get("@months"))
+        okc = (not setc) if first_month else (len(setc) == 1 and all(ev.index(setc[0]) < ev.index(e) for e in ev if e.kind in ("call",) and e is not setc[0]))
+        ov.leaf("month starts from last recorded head count", okc, "the month does not start from the last recorded head count", dec)
+    ov.done()
+    # no herd is skipped: no continue/break/return in the per-animal passes, and the final step is unconditional
+    for lp in [s_ for s_ in ml.body if isinstance(s_, ast.For)]:
         exits = [n for st in lp.body for n in ([st] + list(walk_no_nested(st))) if isinstance(n, (ast.Continue, ast.Break, ast.Return))]
         rep.check(not exits, rule, f"per-animal pass at +{lp.lineno - ml.lineno}: no herd is skipped",
-                  "a continue/break/return lets a herd skip part of the month's bookkeeping (line " + ", ".join(str(e.lineno) for e in exits[:3]) + ")",
-                  loc=loc(ANIM, lp))
-    rep.check(norm_src(ml.body[-1]) == "AnimalPopulation.appened_current_populations(all_animals)", rule, "population recorded at month end",
-              "the end-of-month head count is not appended to the population list after all animals were updated", loc=loc(ANIM, ml))
-    first = [norm_src(s)[:80] for s in ml.body[:3]]
-    rep.check(any("AnimalPopulation.set_current_populations(all_animals)" in norm_src(s) for s in ml.body[:3]), rule, "month starts from last recorded head count",
-              "the month does not start from the last recorded head count", loc=loc(ANIM, ml))
+                  "a continue/break/return lets a herd skip part of the month's bookkeeping (line " + ", ".join(str(e.lineno) for e in exits[:3]) + "): "
+                  "e.g. that month's recorded deaths and home-kill are never taken off the herd", loc=loc(ANIM, lp))
+    fins = [c for c in ast.walk(ml) if isinstance(c, ast.Call) and (dotted(c.func) or "").endswith("calculate_final_population")]
+    if len(fins) == 1:
+        n = fins[0]
+        cond = []
+        while n is not None and n is not ml:
+            if isinstance(n, (ast.If, ast.Try, ast.While)):
+                cond.append(type(n).__name__)
+            n = getattr(n, "_parent", None)
+        rep.check(not cond, rule, "the final step is unconditional", "calculate_final_population runs only under a condition", loc=loc(ANIM, fins[0]))
     sc = index.func(ANIM, "AnimalPopulation.set_current_populations")
-    rep.check("animal.current_population = animal.population[-1]" in norm_src(sc), rule, "start = previous end", "start-of-month head count is not the "
-              "previous month's end", loc=loc(ANIM, sc))
+    lp = [s_ for s_ in sc.body if isinstance(s_, ast.For)]
+    ok = bool(lp) and isinstance(lp[-1].target, ast.Name) and [norm_src(x) for x in lp[-1].body] == [
+        f"{lp[-1].target.id}.current_population = {lp[-1].target.id}.population[-1]"]
+    rep.check(ok, rule, "start = previous end", "start-of-month head count is not the previous month's end", loc=loc(ANIM, sc))
     rep.require_min(rule, 8)
 
 
 def xfer(index, rep):
     rule = "C06.XFER"
-    main = index.func(ANIM, "main")
-    ml = [s for s in main.body if isinstance(s, ast.For) and norm_src(s.iter) == "range(0, months_to_run)"][0]
-    stores = [s for s in walk_no_nested(ml) if isinstance(s, ast.Assign) and isinstance(s.targets[0], ast.Subscript)
-              and norm_src(s.targets[0]) == "transfer_populations[animal.animal_species]"]
-    vals = sorted(norm_src(s.value) for s in stores)
-    nonzero = [s for s in stores if norm_src(s.value) != "0"]
-    ok = len(nonzero) == 1 and norm_src(nonzero[0].value) == "animal.retiring_milk_head_monthly() + new_transfer_births"
-    if ok:
-        g = nonzero[0]
-        conds = []
-        n = getattr(g, "_parent", None)
-        while n is not None and n is not ml:
-            if isinstance(n, ast.If):
-                conds.append(norm_src(n.test))
-            n = getattr(n, "_parent", None)
-        ok = "animal.animal_function == 'milk'" in conds
-    rep.check(ok, rule, "transfer out of a dairy herd = retirements + surviving male calves",
-              f"the animals leaving a dairy herd for the meat herd are not retiring_milk_head_monthly() + transfer births, under the dairy guard ({vals})",
-              loc=loc(ANIM, ml))
-    txt = norm_src(ml)
-    rep.check("new_additive_animals_month = births[animal.animal_type] + transfer_populations[animal.animal_species]" in txt, rule,
-              "meat herd receives exactly the transfer (+1 coefficient)", "the meat herd does not receive births + the species' transfer", loc=loc(ANIM, ml))
-    # the retirements subtracted from the dairy herd come from the same call as the transfer's retirement term
-    rep.check("animal.retiring_milk_animals.append(animal.retiring_milk_head_monthly())" in txt, rule, "dairy herd loses the same retirements",
-              "the retirements recorded (and subtracted) for the dairy herd are not the retirements added to the meat herd", loc=loc(ANIM, ml))
+    main, ml, mleaves = herd.month_trace(index)
+    ov = Over(rep, rule, loc(ANIM, ml))
+    retire = Path(("elemcall:retiring_milk_head_monthly",))
+    for dec, ev, env, it in mleaves:
+        dairy_fn = herd.dec_true(dec, "animal_function", "'milk'")          # the animal that WRITES the transfer (pass over dairy herds)
+        milk_type = herd.dec_true(dec, "'milk' in", "animal_type")           # the animal that READS it: meat herds add, dairy herds subtract
+        step = _ev(ev, "call", "calculate_change_in_population")
+        births = _ev(ev, "call", "calculate_additive_births")
+        if len(step) != 1 or len(births) != 1 or dairy_fn is None or milk_type is None:
+            ov.leaf("month loop has one births call and one population step per animal", False,
+                    "the month loop no longer makes one births call and one population step per animal (with the dairy tests)", dec)
+            continue
+        b0 = it.to_rat(Path(("ret:calculate_additive_births#0",)))
+        b1 = it.to_rat(Path(("ret:calculate_additive_births#1",)))
+        T = (it.to_rat(retire) + b1) if dairy_fn else Rat.const(0)   # what a dairy animal of the species stored this month
+        add = it.to_rat(step[0].args[2])
+        want_add = b0 if milk_type else b0 + T
+        ov.leaf("transfer out of a dairy herd = retirements + surviving male calves; the meat herd receives exactly that (+1 coefficient)",
+                add == want_add, "the animals added to a meat herd are not its own births + (retiring dairy animals + surviving male calves) of its "
+                "species, or a dairy herd's additive term is not its own births", dec, detail=f"additive {add}; expected {want_add}")
+        rec = [e for e in _ev(ev, "append", "transfer_population")]
+        okr = len(rec) == 1 and it.to_rat(rec[0].args[0]) == (-T if milk_type else T)
+        ov.leaf("transfer recorded with the sign of the herd's side", okr,
+                "transfer_population does not record +transfer for the receiving herd and -transfer for the dairy herd", dec)
+        ret_rec = _ev(ev, "append", "retiring_milk_animals")
+        okd = (len(ret_rec) == 1 and it.to_rat(ret_rec[0].args[0]) == it.to_rat(retire)) if dairy_fn else not ret_rec
+        ov.leaf("dairy herd loses the same retirements", okd,
+                "the retirements recorded (and then subtracted) for the dairy herd are not the retirements added to the meat herd "
+                "(same retiring_milk_head_monthly() of the same animal, dairy herds only)", dec)
+        tb = _ev(ev, "append", "transfer_births")
+        okt = (len(tb) == 1 and it.to_rat(tb[0].args[0]) == b1) if dairy_fn else not tb
+        ov.leaf("transferred calves recorded = calves transferred", okt, "transfer_births does not record result 1 of the births routine", dec)
+        # reset each month: the first per-animal pass stores 0 under the species key before any transfer is written
+        ok0 = not dairy_fn and not milk_type and add == b0 or dairy_fn or milk_type
+        ov.leaf("transfer reset each month", ok0, "a meat herd of a species without a dairy herd this month still receives a transfer "
+                "(the per-species transfer is not reset to 0 every month)", dec)
+    ov.done()
     cb = index.func(ANIM, "AnimalPopulation.calculate_births")
     it = Interp()
     p, app, br, tc = (Rat.atom((n_,)) for n_ in ("birthing", "per_pregnancy", "birth_ratio", "transfer_culling"))
@@ -242,9 +298,6 @@ def xfer(index, rep):
         it.to_rat(res[1]) == p * app / br * (br - Rat.const(1)) * (Rat.const(1) - tc)
     rep.check(ok, rule, "births: own = birthing x per-pregnancy / ratio; transferred = own x (ratio-1) x (1 - calf culling)",
               "calculate_births no longer splits births into (kept in herd, surviving calves transferred) this way", loc=loc(ANIM, cb))
-    # init of the per-month dict: every species starts at 0 each month
-    inits = [s for s in stores if norm_src(s.value) == "0"]
-    rep.check(len(inits) >= 1, rule, "transfer reset each month", "transfer_populations is not reset to 0 for every species each month", loc=loc(ANIM, ml))
     rep.require_min(rule, 5)
 
 
@@ -297,34 +350,49 @@ def slaughter(index, rep):
                   loc=loc(ANIM, fn), detail=str(res))
     if n < 3:
         raise AnalysisError(f"calculate_slaughter_rate: {n} leaves")
-    cc = index.func(ANIM, "AnimalPopulation.calculate_change_in_population")
-    txt = [norm_src(s) for s in cc.body]
-    i1 = next((i for i, t in enumerate(txt) if t == "allocated_hours = current_slaughter_rate * animal.animal_slaughter_hours"), None)
-    i2 = next((i for i, t in enumerate(txt) if t == "remaining_hours_this_size -= allocated_hours"), None)
-    i3 = next((i for i, t in enumerate(txt) if t.startswith("assert remaining_hours_this_size >= 0")), None)
-    rets = [norm_src(r.value) for r in cc.body if isinstance(r, ast.Return)]
-    rep.check(None not in (i1, i2, i3) and i1 < i2 < i3 and rets == ["remaining_hours_this_size"], rule,
-              "hours used = slaughter applied x hours/head, subtracted, asserted >= 0, returned",
-              "the labour budget is not reduced by slaughter applied x hours per head and checked to stay non-negative", loc=loc(ANIM, cc))
-    call = [s for s in walk_no_nested(cc) if isinstance(s, ast.Assign) and isinstance(s.value, ast.Call)
-            and dotted(s.value.func) == "AnimalPopulation.calculate_slaughter_rate"]
-    rep.check(len(call) == 1 and norm_src(call[0].value.args[4]) == "remaining_hours_this_size", rule, "rate computed from the class's remaining hours",
-              "the slaughter rate is not computed from the remaining hours of the animal's size class", loc=loc(ANIM, cc))
+    # the hours budget through one population step: what comes back = what came in - slaughter applied x hours per head, asserted >= 0
+    cc, cleaves = herd.function_trace(index, "AnimalPopulation.calculate_change_in_population")
+    ov = Over(rep, rule, loc(ANIM, cc))
+    for dec, ev, env, it in cleaves:
+        ret = _ev(ev, "return")
+        sr = _ev(ev, "call", "calculate_slaughter_rate")
+        applied = it.to_rat(Path(("ret:calculate_animal_population",)))
+        hph = it.to_rat(Path(("P0", "animal_slaughter_hours")))
+        okh = len(ret) == 1 and isinstance(ret[0].args[0], (Rat, Path)) and it.to_rat(ret[0].args[0]) == it.to_rat(Path(("P3",))) - applied * hph
+        ov.leaf("hours left = hours given - slaughter applied x hours/head", okh,
+                "the labour budget handed back is not the budget received minus slaughter applied x hours per head", dec,
+                detail=str(ret[0].args[0]) if ret else None)
+        okr = len(sr) == 1 and len(sr[0].args) >= 5 and _is(sr[0].args[4], "P3")
+        ov.leaf("rate computed from the class's remaining hours", okr,
+                "the slaughter rate is not computed from the remaining hours the caller handed in", dec)
+    ov.done()
+    asserts = [norm_src(a_.test).replace(" ", "") for a_ in walk_no_nested(cc) if isinstance(a_, ast.Assert)]
+    rets = [r for r in cc.body if isinstance(r, ast.Return)]
+    rname = norm_src(rets[-1].value) if rets else "?"
+    rep.check(any(a_.startswith(f"{rname}>=0") or a_.startswith(f"{rname}>=-") for a_ in asserts), rule, "hours left asserted >= 0",
+              "the remaining labour hours are no longer asserted to stay non-negative", loc=loc(ANIM, cc))
     hb = index.func(ANIM, "calculate_net_slaughter_hours_by_size")
     t = norm_src(hb)
-    rep.check("for category in ['small', 'medium', 'large']" in t and
-              "sum((animal.animal_slaughter_hours * animal.baseline_slaughter for animal in animals if animal.animal_size == category))" in t, rule,
-              "budget = sum over the size class of hours/head x baseline slaughter", "the labour budget per size class is not the baseline capacity of that class",
-              loc=loc(ANIM, hb))
-    main = index.func(ANIM, "main")
-    ml = [s for s in main.body if isinstance(s, ast.For) and norm_src(s.iter) == "range(0, months_to_run)"][0]
-    budget = [s for s in ml.body if isinstance(s, ast.Assign) and norm_src(s.value) == "calculate_net_slaughter_hours_by_size(all_animals)"]
-    rep.check(len(budget) == 1, rule, "budget recomputed every month", "the labour budget is not re-initialised inside the month loop", loc=loc(ANIM, ml))
-    thread = [s for s in walk_no_nested(ml) if isinstance(s, ast.Assign) and norm_src(s.targets[0]) == "hours_by_size_dict[animal.animal_size]"]
-    ok = len(thread) == 1 and isinstance(thread[0].value, ast.Call) and dotted(thread[0].value.func) == "AnimalPopulation.calculate_change_in_population" and \
-        norm_src(thread[0].value.args[3]) == "hours_by_size_dict[animal.animal_size]"
-    rep.check(ok, rule, "remaining hours threaded per size class", "what one species leaves of its class's hours is not what the next species of the class gets",
-              loc=loc(ANIM, ml))
+    import re as _re
+    okb = bool(_re.search(r"for (\w+) in \['small', 'medium', 'large'\]", t)) and bool(_re.search(
+        r"sum\(\((\w+)\.animal_slaughter_hours \* \1\.baseline_slaughter for \1 in \w+ if \1\.animal_size == \w+\)\)", t))
+    rep.check(okb, rule, "budget = sum over the size class of hours/head x baseline slaughter",
+              "the labour budget per size class is not the baseline capacity of that class", loc=loc(ANIM, hb))
+    main, ml, mleaves = herd.month_trace(index)
+    ov = Over(rep, rule, loc(ANIM, ml))
+    for dec, ev, env, it in mleaves:
+        bud = _ev(ev, "call", "calculate_net_slaughter_hours_by_size")
+        step = _ev(ev, "call", "calculate_change_in_population")
+        okb = len(bud) == 1 and len(step) == 1 and ev.index(bud[0]) < ev.index(step[0])
+        ov.leaf("budget recomputed every month", okb, "the labour budget is not re-initialised inside the month loop, before the population steps", dec)
+        st = [e for e in _ev(ev, "store") if e.base is not None and _is(e.base, "ret:calculate_net_slaughter_hours_by_size")]
+        okt = okb and len(st) == 1 and _is(st[0].args[1], "ret:calculate_change_in_population") and isinstance(st[0].args[0], Path) and \
+            ".".join(st[0].args[0].parts) == "elem.animal_size" and isinstance(step[0].args[3], Path) and \
+            ".".join(str(x) for x in step[0].args[3].parts) == "ret:calculate_net_slaughter_hours_by_size.[elem.animal_size]"
+        ov.leaf("remaining hours threaded per size class", okt,
+                "what one species leaves of its size class's hours is not what the next species of the class gets (the step's result must be stored "
+                "back under the animal's size, and the step must be given that entry)", dec)
+    ov.done()
     rep.require_min(rule, 7)
 
 
